@@ -17,4 +17,14 @@ def costBasis (log : List (Trade σ α)) (sym : σ) : Option α :=
   let r := log.foldl (cbStep sym) (0, 0)
   if isZero r.1 then none else some (r.2 / r.1)
 
+/-- `get_position_profit`: `qty * (value / qty - cost)` when cost basis, quantity and value all exist -/
+def positionProfit [Mul α] (b : Brk σ α) (s : σ) : Option α :=
+  match costBasis b.log s with
+  | none => none
+  | some cost => match b.hold s with
+    | none => none
+    | some n => match posValue b s with
+      | none => none
+      | some pv => some (n * (pv / n - cost))
+
 end PCB
